@@ -33,6 +33,66 @@ Proof.
     split; [assumption|]. right. eapply next_hops_not_skipped; eassumption.
 Qed.
 
+(** GetNextHopRandomOrFind over the real table: [t] the table at the first
+    lookup, [t'] the table as the fallback FindRoute left it (ANY table), both
+    lookups with the path as skip list; and the relay step that uses it. *)
+Definition next_hop_random (connected : C27.Model.addr -> bool) (t : C27.Model.table)
+           (target : C27.Model.addr) (skips : list C27.Model.addr) (pick : nat) : option C27.Model.addr :=
+  pick_of (filter connected (C27.Model.next_hops t target skips)) pick.
+Definition next_hop_random_or_find (connected : C27.Model.addr -> bool) (t t' : C27.Model.table) (find_ok : bool)
+           (target : C27.Model.addr) (skips : list C27.Model.addr) (pick1 pick2 : nat) : option C27.Model.addr :=
+  match next_hop_random connected t target skips pick1 with
+  | Some v => Some v
+  | None => if find_ok then next_hop_random connected t' target skips pick2 else None
+  end.
+Definition relay_step (connected : C27.Model.addr -> bool) (t t' : C27.Model.table) (find_ok : bool)
+           (target : C27.Model.addr) (path : list C27.Model.addr) (pick1 pick2 : nat) : option C27.Model.addr :=
+  if connected target then Some target
+  else next_hop_random_or_find connected t t' find_ok target path pick1 pick2.
+
+Lemma pick_of_In {A} (l : list A) pick x : pick_of l pick = Some x -> In x l.
+Proof. unfold pick_of. destruct l; [discriminate|]. apply nth_error_In. Qed.
+
+Lemma next_hop_random_ok connected t target skips pick next :
+  next_hop_random connected t target skips pick = Some next -> connected next = true /\ ~ In next skips.
+Proof.
+  unfold next_hop_random. intros H. apply pick_of_In in H. apply filter_In in H as [Hin Hc].
+  split; [assumption|]. eapply next_hops_not_skipped; eassumption.
+Qed.
+
+Lemma next_hop_random_or_find_ok connected t t' find_ok target skips pick1 pick2 next :
+  next_hop_random_or_find connected t t' find_ok target skips pick1 pick2 = Some next ->
+  connected next = true /\ ~ In next skips.
+Proof.
+  unfold next_hop_random_or_find.
+  destruct (next_hop_random connected t target skips pick1) as [v|] eqn:E1.
+  - intros [= <-]. eapply next_hop_random_ok; eassumption.
+  - destruct find_ok; [|discriminate]. apply next_hop_random_ok.
+Qed.
+
+Lemma relay_step_no_revisit connected t t' find_ok target path pick1 pick2 next :
+  relay_step connected t t' find_ok target path pick1 pick2 = Some next ->
+  connected next = true /\ (next = target \/ ~ In next path).
+Proof.
+  unfold relay_step. destruct (connected target) eqn:Ec.
+  - intros [= <-]. split; [assumption|now left].
+  - intros H. apply next_hop_random_or_find_ok in H as [H1 H2]. split; [assumption|now right].
+Qed.
+
+(** the same decision at the level of the network model *)
+Lemma relay_next_find_no_revisit nbr n target path offered1 find_ok offered2 pick1 pick2 next :
+  (forall v, In v offered1 -> ~ In v path) -> (forall v, In v offered2 -> ~ In v path) ->
+  relay_next_find nbr n target offered1 find_ok offered2 pick1 pick2 = Some next ->
+  nbr n next = true /\ (next = target \/ ~ In next path).
+Proof.
+  intros H1 H2. unfold relay_next_find. destruct (nbr n target) eqn:Ec.
+  - intros [= <-]. split; [assumption|now left].
+  - destruct (pick_of (filter (fun v => nbr n v) offered1) pick1) as [v|] eqn:E1.
+    + intros [= <-]. apply pick_of_In in E1. apply filter_In in E1 as [Hin Hc]. split; [assumption|right; auto].
+    + destruct find_ok; [|discriminate]. intros E2. apply pick_of_In in E2. apply filter_In in E2 as [Hin Hc].
+      split; [assumption|right; auto].
+Qed.
+
 Lemma relay_no_revisit nbr n target path offered pick next :
   (forall v, In v offered -> ~ In v path) ->
   relay_next nbr n target path offered pick = Some next ->
